@@ -208,8 +208,7 @@ def run(tier):
     rnd = random.Random(common.seed())
     verdict = common.Verdict(PID)
     d = common.builddir('c18', clean=True)
-    for f in ('Expiration.tla', 'ExpirationTrace.tla'):
-        shutil.copy(os.path.join(common.SPEC, 'expiry', f), d)
+    common.put_spec(d, *[os.path.join('expiry', f_) for f_ in ('Expiration.tla', 'ExpirationTrace.tla')])
     cfgs = configs(tier)
     maxroots = 3 if tier == 'quick' else 4
     consts = ('CONSTANTS\n  MaxRoots = %d\n  AllStates = {%s}\n  Terminal = {%s}\n  Shapes = {%s}\n  Configs <- MC_Configs\n'
